@@ -28,6 +28,7 @@ extern unsigned char vo_rawsig[VO_RAWMAX];
 extern size_t vo_rawsig_len;
 extern const void *vo_hmac_key;
 extern int vo_hmac_keylen;
+extern int vo_hmac_md_owned;
 extern long vo_live;                    /* live OpenSSL objects created by libjwt */
 extern const EVP_MD *vo_sha256, *vo_sha384, *vo_sha512, *vo_mdnull;
 #endif
